@@ -248,6 +248,10 @@ def harvested_pairs(rnd, stmt, cons, k):
         yield px, [(sp[0], x)], pt, [(sp[0], t)]
 
 
+LAYOUT_CONTEXTS = ["x = {}\n", "{}\n", "print({})\n", "f(a, k={})\n", "if {}:\n    pass\n", "    x = [{}]\n".replace("    x", "if a:\n    x"), "longer_name = a + {}\n", "x = (y,  {})\n", "for i in  {}:\n    pass\n",
+                   "def f():\n    return {}\n", "é = {}\n", "x = {{'k': [{}]}}\n"]
+
+
 def run_shard(shard):
     acc = Acc()
     if "replay" in shard:
@@ -277,6 +281,18 @@ def run_shard(shard):
                 px, sx = gen_ctx.fill(ctx, [x])
                 pt, st = gen_ctx.fill(ctx, [t])
                 check_pair(acc, px, sx, pt, st, "target-base-context")
+        # a subprocess form continued on a second line, the continuation indented by every width in turn: the words must not depend on
+        # which column a context happens to shift them to (e.g. where the first line's last piece ended)
+        for k in range(0, 44):
+            pad = " " * k
+            for x, t in ((f"$(echo ab\n{pad}cd)", "__xonsh__.subproc_captured('echo', 'ab', 'cd')"),
+                         (f"![ls $HOME\n{pad}-l x]", "__xonsh__.subproc_captured_hiddenobject('ls', __xonsh__.env['HOME'], '-l', 'x')"),
+                         (f"!(cat 'a b'\n{pad}@(v) \n{pad}w)", "__xonsh__.subproc_captured_object('cat', \"'a b'\", *__xonsh__.list_of_strs_or_callables(v), 'w')"),
+                         (f"$[e g`*.py`\n{pad}$(pwd)]", "__xonsh__.subproc_uncaptured('e', __xonsh__.pathsearch('g`*.py`'), __xonsh__.subproc_captured('pwd'))")):
+                for ctx in LAYOUT_CONTEXTS:
+                    px, sx = gen_ctx.fill(ctx, [x])
+                    pt, st = gen_ctx.fill(ctx, [t])
+                    check_pair(acc, px, sx, pt, st, "continuation-layout")
     elif kind == "multi":
         for _ in range(shard["n"]):
             ctx = rnd.choice(gen_ctx.LOAD_CONTEXTS)
